@@ -23,8 +23,10 @@ KINDS = ["D", "E", "C", "B", "F", "X", "G"]     # directive, odd directive, comm
 def render(kinds, rng=None):
     out = []
     nf = nd = nc = 0
-    comments = ["#comment", "#", "#!genome-build GRCh38", "#!", "# #", "#\t", "# ##not a directive", "#!!doubled", "#>x", "#FASTA"]
-    odd = ["###", "##", "## spaced out", "###!x", "##gff-version 3", "##FASTA-index genome.fa.fai", "##FASTAfile x", "##FASTA "]
+    comments = ["#comment", "#", "#!genome-build GRCh38", "#!", "# #", "#\t", "# ##not a directive", "#!!doubled", "#>x", "#FASTA",
+                "#a\x0b##not-a-directive", "#a\x0c>x", "#a\u2028##x", "#a\x85b", "#a\x1c>seq"]
+    odd = ["###", "##", "## spaced out", "###!x", "##gff-version 3", "##FASTA-index genome.fa.fai", "##FASTAfile x", "##FASTA ",
+           "##species a\x0bb", "##note x\u2028>y", "##k\x0c##v", "###", "##gff-version 3", "##tail\x1d"]
     for k in kinds:
         if k == "D":
             nd += 1
